@@ -305,6 +305,12 @@ func BuildCte(query *Query, expr *sqlparser.With) error {
 	if expr == nil {
 		return nil
 	}
+	// CTEs are registered in a private shallow copy of the document so that
+	// the caller's map is never written to
+	query.data = maps.Clone(query.data)
+	if query.data == nil {
+		query.data = make(Map)
+	}
 	for _, cte := range expr.CTEs {
 		copy := *cte
 		query.data[copy.ID.String()] = CteEvaluation(func() (any, error) {
